@@ -17,6 +17,7 @@ inductive Err
   | runtimeErr
   | notImpl
   | badOp     -- malformed case: never defaulted
+  | unbound   -- program variable not bound (an earlier operation failed)
   deriving DecidableEq, Repr, Inhabited
 
 def Err.toString : Err → String
@@ -28,6 +29,7 @@ def Err.toString : Err → String
   | .runtimeErr => "RuntimeErr"
   | .notImpl => "NotImpl"
   | .badOp => "bad-op"
+  | .unbound => "unbound"
 
 instance : ToString Err := ⟨Err.toString⟩
 
